@@ -101,7 +101,8 @@ def _terminal_rule(chk, prog):
             ("vm.c", "janet_check_can_resume", "JANET_STATUS_", "unresumable"),
             ("value.c", "janet_next_impl", "JANET_STATUS_", "unresumable"),
             ("value.c", "janet_next_impl", "JANET_SIGNAL_", "finished"),
-            ("vm.c", "janet_continue_no_check", "JANET_SIGNAL_", "finished")):
+            ("vm.c", "janet_continue_no_check", "JANET_SIGNAL_", "finished"),
+            ("marsh.c", "unmarshal_one_fiber", "JANET_STATUS_", "finished")):
         fn = prog.need_func(fname, unit)
         chk.analysed(fn)
         preds = status_predicates(fn, prefix)
@@ -133,6 +134,20 @@ def _terminal_rule(chk, prog):
                           "(numeric values; statuses and signals share one numbering)" % (role, fname, extra, miss))
     if len(sites) < 6:
         raise AnalysisBroken("only %d status predicates found" % len(sites))
+    # `finished` is never a comparison with one status: a fiber that ended in an error or a user signal is finished too
+    for tun in ("ev.c", "fiber.c", "vm.c"):
+        tu = prog.tus.get(tun)
+        if tu is None:
+            continue
+        for fn in tu.funcs.values():
+            for x in fn.nodes:
+                if x.k == "bin" and x.op in ("==", "!=") and any(is_ref(strip_casts(k), "JANET_STATUS_DEAD") for k in x.kids) and \
+                        not (x.parent is not None and x.parent.k == "bin" and x.parent.op in ("||", "&&")):
+                    chk.instance(rule)
+                    chk.violation(rule, tun, fn.name, "dead-only", x.loc,
+                                  "`%s` takes `dead` for `finished`: a fiber that ended with an error or with a user signal 0-4 is "
+                                  "finished without being dead, so whatever this test guards (a deadline that should be dropped) "
+                                  "stays in force for it" % x.text()[:60])
 
 
 def _entry_rule(chk, prog):
